@@ -1,9 +1,10 @@
 (* Client proofs, group G3: facade.  C09 (transport failures are contained and reported),
    C10 (orderly shutdown), C03 (cancellations on the wire).  Statements: ClientSpec.v.
    Parts: G3a micro-steps of a dispatch poll; G3b the model invariant; G3c C09;
-   G3d the observer/model relation behind C10 and C03, and C10. *)
+   G3d the observer/model relation behind C10 and C03, and C10; G3e C03. *)
 From TarpcV Require Import Base Transport Client ClientS ClientMon ClientSpec.
-From TarpcV Require Export ClientProofsG3a ClientProofsG3b ClientProofsG3c ClientProofsG3d.
+From TarpcV Require Export ClientProofsG3a ClientProofsG3b ClientProofsG3c ClientProofsG3d
+  ClientProofsG3e.
 
 (* C09 is proved in ClientProofsG3c.v *)
 Check (@c09_contained_and_reported : forall T : Type, @stmt_c09 T).
@@ -12,3 +13,7 @@ Print Assumptions c09_contained_and_reported.
 (* C10 is proved in ClientProofsG3d.v *)
 Check (@c10_orderly_shutdown : forall T : Type, @stmt_c10 T).
 Print Assumptions c10_orderly_shutdown.
+
+(* C03 is proved in ClientProofsG3e.v *)
+Check (@c03_cancel_on_wire : forall T : Type, @stmt_c03 T).
+Print Assumptions c03_cancel_on_wire.
